@@ -88,6 +88,36 @@ def usedScriptsValid (r : Result) : Bool :=
     | .edit _ al bl rs => al.isEmpty || (pairCells al bl rs).isSome
     | _ => true
 
+/-- Device access lists in which the line planner suppressed a move next to (or of) a remark line in
+this run (ghost flag of `planIOS'`, per edited ACL): F-C02r can only show there. -/
+def suppressedAcls (r : Result) : List Name :=
+  r.acts.filterMap fun
+    | .edit aN al bl rs =>
+      if al.isEmpty then none else
+      match pairCells al bl rs with
+      | some M => if (M.any fun c => c.old && c.new) && (NA.Acl.planIOS' M).2 then some aN else none
+      | none => none
+    | _ => none
+
+/-- What the model of the unchanged engine predicts for this input: the slots `intf:dir` of the target
+whose access list, after the model's script on the strict device, is not block-equivalent to the target's
+(or not bound / bound although the target does not bind it). -/
+def predictedNotConverged (b : Config) (d : NA.IosDev2.Dev) : List String :=
+  b.intfs.flatMap fun bi =>
+    ["in", "out"].filterMap fun dir =>
+      match bi.binds.find? (·.dir == dir), NA.IosDev2.slotOf d bi.name dir with
+      | some bd, some n =>
+        if NA.IosDev2.blockEquivL (NA.IosDev2.linesOf d n) (b.lines bd.acl) then none else some (bi.name ++ ":" ++ dir)
+      | none, none => none
+      | _, _ => some (bi.name ++ ":" ++ dir)
+
+/-- … and whether the route lines of the VRFs for which the target specifies routes are the target's. -/
+def predictedRoutesConverged (a b : Config) (d : NA.IosDev2.Dev) : Bool :=
+  let refs := a.routes ++ b.routes
+  let vrfOf := fun t => ((refs.find? fun r => r.text == t).map (·.vrf)).getD "?"
+  let managed := d.routes.filter fun t => (b.routes.map (·.vrf)).contains (vrfOf t)
+  managed.all (fun t => (b.routes.map (·.text)).contains t) && (b.routes.map (·.text)).all fun t => managed.contains t
+
 def answer (line : String) : String :=
   let fs := fieldsOf line
   let a : Config := { intfs := parseIntfs (get fs "ai"), acls := parseAcls (get fs "aa"), routes := parseRoutes (get fs "ar") }
@@ -118,6 +148,10 @@ def answer (line : String) : String :=
       "routekeys=" ++ (if routeKeysOK a b then "1" else "0"),
       "routeshape=" ++ (if routeShape a b r.script then "1" else "0"),
       "routecmds=" ++ toString (r.script.flatMap chgRouteOp).length,
+      -- per-object prediction of the model (for the signatures of known finding F-C02r)
+      "suppracls=" ++ ",".intercalate (suppressedAcls r),
+      "notconv=" ++ (if ex.2.isSome then "?" else ",".intercalate (predictedNotConverged b ex.1)),
+      "routesconv=" ++ (if ex.2.isSome then "?" else if predictedRoutesConverged a b ex.1 then "1" else "0"),
       "final=" ++ NA.IosDev2.dump ex.1]
 
 end NA.Drv.C02
